@@ -1,4 +1,4 @@
-(* drv_vi.ml -- line-protocol driver of the extracted vi motion model.
+(* drv_vi.ml -- line-protocol driver of the extracted vi motion and register models.
    mot <rows> <texthex> <cmd>...   cmd = m:<count>:<keycode>[:<charhex>] | g:<n>
    answer: "<row> <off> <col> <top>" or "fuel" *)
 let pr = Printf.printf
@@ -24,4 +24,17 @@ let () =
         (match run_prog b (z_of_int (int_of_string rows)) (List.map cmd_of prog) with
          | Some (_, s) -> pr "%d %d %d %d\n" (int_of_z s.v_row) (int_of_z s.v_off) (int_of_z s.v_col) (int_of_z s.v_top)
          | None -> pr "fuel\n")
+    | "regs" :: puts ->
+        (* regs <namehex>:<texthex>:<ln> ...  -> the revealed registers "" a b 1 2 3 4 as <texthex>:<ln> or x *)
+        let r = List.fold_left (fun r w ->
+          match String.split_on_char ':' w with
+          | [c; s; ln] ->
+              let cn = (match bytes_of_hex c with [x] -> x | _ -> N0) in
+              reg_put r cn (bytes_of_hex s) (ln = "1")
+          | _ -> r) regs0 puts in
+        List.iter (fun c ->
+          match reg_get r (n_of_int c) with
+          | Some (s, ln) -> pr "%s:%d " (hex_of_bytes s) (if ln then 1 else 0)
+          | None -> pr "x ") [0; 97; 98; 49; 50; 51; 52];
+        pr "\n"
     | _ -> pr "?\n")
